@@ -982,15 +982,21 @@ class ModelsOps:
         if s.const is not None:
             try:
                 return Num(RF.const(Fraction(s.const)), "dec" if how == "Decimal" else "frac")
-            except (ValueError, ZeroDivisionError):
+            except ValueError:
                 ex = ExcV("ValueError", (), node, self.where(node))
                 ex.tag = "parse"
                 raise AbsRaise(ex)
+            except ZeroDivisionError:
+                ex = ExcV("ZeroDivisionError" if how == "Fraction" else "ValueError", (), node, self.where(node))
+                ex.tag = "parse"
+                raise AbsRaise(ex)
         key = ("parsed", id(s))
-        c = self.I.choose(2, f"{how}(str)@{getattr(node, 'lineno', '?')}", ["ok", "ValueError"])
+        # fractions.Fraction('n/0') raises ZeroDivisionError, not ValueError
+        opts = ["ok", "ValueError"] + (["ZeroDivisionError"] if how == "Fraction" else [])
+        c = self.I.choose(len(opts), f"{how}(str)@{getattr(node, 'lineno', '?')}", opts)
         self.st.effects.append(("parsed", how, c == 0, self.where(node)))
-        if c == 1:
-            ex = ExcV("ValueError", (), node, self.where(node))
+        if c >= 1:
+            ex = ExcV(opts[c], (), node, self.where(node))
             ex.tag = "parse"
             raise AbsRaise(ex)
         n = Num(RF.atom(("parsed", s.tag)), "dec" if how == "Decimal" else "frac")
